@@ -44,6 +44,8 @@ type kind struct {
 	s  string // struct name (ptr/struct), enum prefix
 	t  []kind // tuple components
 	nn bool   // ptr: the pointer is never nil (an invariant of the data structure, stated in specs.go)
+	optElems bool // list: the elements are pointers that may be nil
+	elemNN bool // list: the elements are non-nil pointers (the list holds the structs themselves)
 }
 
 func (k kind) String() string { return k.k + ":" + k.s }
@@ -81,12 +83,14 @@ var schemas = map[string][]field{
 	"FlushRequest":      {{"NetworkInstance", "NetworkInstance", kind{k: "oneof", s: "FlushNI"}}, {"Override", "Override", kPtr("Unit")}, {"Id", "Id", kPtr("Uint128")}},
 	"OpResult":          {{"ID", "ID", kNat}},
 	"AFTOperation":      {{"Id", "Id", kNat}, {"ElectionId", "ElectionId", kPtr("Uint128")}, {"Op", "Op", kEnum}},
+	"ModifyRequestF":    {{"Operation", "Operation", kind{k: "list", s: "AFTOperation", elemNN: true}}},
+	"gRIBIConnection":   {{"redundMode", "redundMode", kEnum}},
 	"ModifyRequest":     {{"Params", "Params", kPtr("SessionParameters")}, {"ElectionId", "ElectionId", kPtr("Uint128")}, {"Operation", "Operation", kPtr("Unit")}},
 }
 
 var leanStruct = map[string]string{
 	"Uint128": "U128", "electionDetails": "ElectionDetails", "clientParams": "ClientParams", "clientState": "ClientState",
-	"SessionParameters": "SessionParameters", "FlushRequest": "FlushRequest", "ModifyRequest": "ModifyRequest", "Unit": "Unit", "OpResult": "OpResult", "AFTOperation": "AFTOperation", "String": "String",
+	"SessionParameters": "SessionParameters", "FlushRequest": "FlushRequest", "ModifyRequest": "ModifyRequest", "Unit": "Unit", "OpResult": "OpResult", "AFTOperation": "AFTOperation", "String": "String", "ModifyRequestF": "ModifyRequestF", "gRIBIConnection": "GRIBIConnection",
 }
 
 func leanType(k kind) string {
@@ -120,6 +124,9 @@ func leanType(k kind) string {
 		if k.s == "AFTResult" {
 			return "List (Nat × AftSt)"
 		}
+		if k.optElems {
+			return "List (Option " + leanStruct[k.s] + ")"
+		}
 		return "List " + leanStruct[k.s]
 	case "struct":
 		return leanStruct[k.s]
@@ -146,6 +153,53 @@ type val struct {
 	kd     kind
 	path   string         // identity of a pointer-valued place, for nil knowledge
 	fields map[string]val // the variable bound by a type switch case: its fields
+	over   map[string]val // fields of a local struct that were assigned after it was created
+}
+
+func (v val) withOver(f string, x val) val {
+	n := v
+	n.over = map[string]val{}
+	for k, o := range v.over {
+		n.over[k] = o
+	}
+	n.over[f] = x
+	return n
+}
+
+// materialise: a struct value with assigned fields as one Lean term (a let-bound struct update)
+func materialise(v val, en env, pos token.Pos) val {
+	if len(v.over) == 0 {
+		return v
+	}
+	if v.kd.k != "ptr" {
+		fail(pos, "field assignment to a value of kind %s", v.kd)
+	}
+	base := v.lean
+	if !v.kd.nn {
+		b, ok := en.bound[v.path]
+		if !ok {
+			fail(pos, "field assignment through a pointer that may be nil (%s)", v.path)
+		}
+		base = b
+	}
+	var keys []string
+	for k := range v.over {
+		keys = append(keys, k)
+	}
+	sort.Strings(keys)
+	var parts []string
+	for _, k := range keys {
+		f := fieldOf(v.kd.s, k, pos)
+		parts = append(parts, f.lean+" := "+v.over[k].lean)
+	}
+	n := fresh("upd")
+	pendingLets = append(pendingLets, fmt.Sprintf("let %s : %s := { %s with %s }", n, leanStruct[v.kd.s], base, strings.Join(parts, ", ")))
+	if v.kd.nn {
+		return val{lean: n, kd: v.kd, path: v.path}
+	}
+	p := fresh("path")
+	en.bound[p] = n
+	return val{lean: "(some " + n + ")", kd: v.kd, path: p}
 }
 
 // oneofs: the protobuf oneofs the translated code switches on: kind name -> case type -> (Lean constructor, fields)
@@ -365,7 +419,12 @@ func trExpr(e ast.Expr, en env) val {
 			return val{lean: v.Name, kd: kBool}
 		}
 		if x, ok := en.vars[v.Name]; ok {
-			return x
+			return materialise(x, en, v.Pos())
+		}
+		if cur != nil {
+			if c, ok := cur.consts[v.Name]; ok {
+				return val{lean: c, kd: kEnum}
+			}
 		}
 		fail(v.Pos(), "unknown identifier %s", v.Name)
 	case *ast.BasicLit:
@@ -392,6 +451,17 @@ func trExpr(e ast.Expr, en env) val {
 				}
 			}
 			fail(v.Pos(), "enumeration constant %s is not in the translator's table", r)
+		}
+		if id, ok := v.X.(*ast.Ident); ok {
+			if x, ok := en.vars[id.Name]; ok {
+				if o, ok := x.over[v.Sel.Name]; ok {
+					return o
+				}
+				if len(x.over) > 0 {
+					x.over = nil
+					return selectField(x, v.Sel.Name, en, v.Pos())
+				}
+			}
 		}
 		return selectField(trExpr(v.X, en), v.Sel.Name, en, v.Pos())
 	case *ast.UnaryExpr:
@@ -440,6 +510,11 @@ func trExpr(e ast.Expr, en env) val {
 		switch v.Op {
 		case token.EQL, token.NEQ, token.LSS, token.LEQ, token.GTR, token.GEQ, token.LAND, token.LOR:
 			return val{lean: trBool(v, en), kd: kBool}
+		case token.ADD:
+			a, b := trExpr(v.X, en), trExpr(v.Y, en)
+			if a.kd.k == "nat" && (b.kd.k == "nat" || b.kd.k == "int") {
+				return val{lean: "(" + a.lean + " + " + b.lean + ")", kd: kNat}
+			}
 		}
 		fail(v.Pos(), "binary %s", v.Op)
 	case *ast.CallExpr:
@@ -455,7 +530,12 @@ func trExpr(e ast.Expr, en env) val {
 
 // trComposite: &clientParams{F: e, ...}
 func trComposite(cl *ast.CompositeLit, en env) val {
-	name := render(cl.Type)
+	name := strings.TrimPrefix(render(cl.Type), "spb.")
+	if cur != nil {
+		if a, ok := cur.typeMap[name]; ok {
+			name = a
+		}
+	}
 	fs, ok := schemas[name]
 	if !ok {
 		fail(cl.Pos(), "composite literal of %s", name)
@@ -698,6 +778,200 @@ func assignedOuter(list []ast.Stmt) []string {
 	return out
 }
 
+var loopConts []cont
+var curRetTypes []string
+var loopIndex int
+
+// needsGeneralLoop: the body returns, continues, or updates something other than one accumulator
+func needsGeneralLoop(list []ast.Stmt) bool {
+	general := false
+	for _, s := range list {
+		ast.Inspect(s, func(n ast.Node) bool {
+			switch x := n.(type) {
+			case *ast.ReturnStmt, *ast.IncDecStmt:
+				general = true
+			case *ast.BranchStmt:
+				general = true
+			case *ast.AssignStmt:
+				for _, l := range x.Lhs {
+					if _, ok := l.(*ast.SelectorExpr); ok {
+						general = true
+					}
+				}
+			}
+			return !general
+		})
+	}
+	return general
+}
+
+// loopState: the outer places the body assigns: identifiers, state fields, local structs (by field)
+func loopState(list []ast.Stmt, en env) []string {
+	seen := map[string]bool{}
+	var out []string
+	add := func(k string) {
+		if _, ok := en.vars[k]; ok && !seen[k] {
+			seen[k] = true
+			out = append(out, k)
+		}
+	}
+	for _, s := range list {
+		ast.Inspect(s, func(n ast.Node) bool {
+			var lhs []ast.Expr
+			switch x := n.(type) {
+			case *ast.AssignStmt:
+				if x.Tok == token.ASSIGN {
+					lhs = x.Lhs
+				}
+			case *ast.IncDecStmt:
+				lhs = []ast.Expr{x.X}
+			}
+			for _, l := range lhs {
+				switch lv := l.(type) {
+				case *ast.Ident:
+					add(lv.Name)
+				case *ast.SelectorExpr:
+					r := render(lv)
+					if cur != nil && cur.isState(r) {
+						add(r)
+					} else if id, ok := lv.X.(*ast.Ident); ok {
+						add(id.Name)
+					}
+				}
+			}
+			return true
+		})
+	}
+	return out
+}
+
+// trLoop: for _, x := range L { body } in general: a structurally recursive local function whose
+// arguments are the outer places the body assigns; the code after the loop is its base case
+func trLoop(v *ast.RangeStmt, en env, next cont) string {
+	if v.Tok != token.DEFINE || v.Value == nil {
+		fail(v.Pos(), "range form")
+	}
+	if k, ok := v.Key.(*ast.Ident); !ok || k.Name != "_" {
+		fail(v.Pos(), "range with an index variable")
+	}
+	xv := v.Value.(*ast.Ident)
+	l := trExpr(v.X, en)
+	en = absorb(en)
+	if l.kd.k != "list" {
+		fail(v.Pos(), "range over %s", l.kd)
+	}
+	state := loopState(v.Body.List, en)
+	lets := takeLets()
+	// the current values of the state (a local struct with assigned fields is passed as one value)
+	var inits, binders, types []string
+	e0 := en.clone()
+	for _, k := range state {
+		x := materialise(e0.vars[k], e0, v.Pos())
+		lets = append(lets, takeLets()...)
+		e0.vars[k] = x
+		inits = append(inits, atom(x.lean))
+		types = append(types, leanType(x.kd))
+		binders = append(binders, fresh(lastName(k)))
+	}
+	loopIndex++
+	goName := fmt.Sprintf("loop%d", loopIndex)
+	rest := fresh("rest")
+	xn := fresh(xv.Name)
+	bindState := func(e env) env {
+		e = e.clone()
+		for i, k := range state {
+			x := e0.vars[k]
+			nv := val{lean: binders[i], kd: x.kd, path: fresh("path")}
+			if x.kd.k == "ptr" && !x.kd.nn {
+				// a pointer to a local struct stays non-nil; it is matched below
+				nv.path = x.path
+			}
+			e.vars[k] = nv
+		}
+		return e
+	}
+	// pointers to local structs are passed as their (non-nil) struct value
+	for i, k := range state {
+		x := e0.vars[k]
+		if x.kd.k == "ptr" && !x.kd.nn {
+			b, ok := e0.bound[x.path]
+			if !ok {
+				fail(v.Pos(), "loop state %s is a pointer that may be nil", k)
+			}
+			inits[i] = atom(b)
+			types[i] = leanStruct[x.kd.s]
+		}
+	}
+	rebind := func(e env) env {
+		e = bindState(e)
+		for i, k := range state {
+			x := e0.vars[k]
+			if x.kd.k == "ptr" && !x.kd.nn {
+				p := fresh("path")
+				e.bound[p] = binders[i]
+				e.vars[k] = val{lean: "(some " + binders[i] + ")", kd: x.kd, path: p}
+			}
+		}
+		return e
+	}
+	retType := strings.Join(curRetTypes, " × ")
+	base := next(rebind(e0))
+	inner := rebind(e0).push()
+	elemKind := kPtr(l.kd.s)
+	if l.kd.s != "String" {
+		inner.declare(xv.Name, val{lean: xn, kd: elemKind, path: fresh("path")})
+		if l.kd.elemNN {
+			ev := inner.vars[xv.Name]
+			inner.bound[ev.path] = xn
+			ev.lean = "(some " + xn + ")"
+			inner.vars[xv.Name] = ev
+		}
+	} else {
+		inner.declare(xv.Name, val{lean: xn, kd: kStr})
+	}
+	recur := func(e env) string {
+		var args []string
+		e = e.clone()
+		for i, k := range state {
+			x := materialise(e.vars[k], e, v.Pos())
+			a := atom(x.lean)
+			if x0 := e0.vars[k]; x0.kd.k == "ptr" && !x0.kd.nn {
+				b, ok := e.bound[x.path]
+				if !ok {
+					fail(v.Pos(), "loop state %s may be nil at the end of the body", k)
+				}
+				a = atom(b)
+			}
+			_ = i
+			args = append(args, a)
+		}
+		ls := takeLets()
+		return wrapLets(ls, "("+goName+" "+rest+" "+strings.Join(args, " ")+")")
+	}
+	loopConts = append(loopConts, recur)
+	body := trStmts(v.Body.List, inner, func(e env) string { return recur(e.pop()) })
+	loopConts = loopConts[:len(loopConts)-1]
+	elemT := leanStruct[l.kd.s]
+	if !l.kd.elemNN && l.kd.s != "String" {
+		elemT = "Option " + elemT
+	}
+	sig := "List (" + elemT + ")"
+	for _, t := range types {
+		sig += " → " + atom2(t)
+	}
+	sig += " → " + atom2(retType)
+	pats := strings.Join(binders, ", ")
+	def := fmt.Sprintf("let rec %s : %s\n| [], %s => %s\n| %s :: %s, %s => %s", goName, sig, pats, base, xn, rest, pats, body)
+	return wrapLets(lets, "("+def+"\n"+goName+" "+atom(l.lean)+" "+strings.Join(inits, " ")+")")
+}
+
+func atom2(s string) string {
+	if strings.ContainsAny(s, " ") && !(strings.HasPrefix(s, "(") && strings.HasSuffix(s, ")")) {
+		return "(" + s + ")"
+	}
+	return s
+}
+
 // trRange: for _, x := range L { body } where the body only updates one accumulator:
 // acc' := L.foldl (fun acc x => body) acc
 func trRange(v *ast.RangeStmt, en env, next cont) string {
@@ -750,6 +1024,8 @@ func zeroOf(k kind) string {
 		return `""`
 	case "ptr":
 		return "none"
+	case "list":
+		return "[]"
 	}
 	return "0"
 }
@@ -762,7 +1038,16 @@ func trCall(c *ast.CallExpr, en env) []val {
 		if a.kd.k != "list" || !((a.kd.s == "AFTResult" && b.kd.k == "aftresult") || (b.kd.k == "ptr" && b.kd.s == a.kd.s)) {
 			fail(c.Pos(), "append of %s to %s", b.kd, a.kd)
 		}
-		return []val{{lean: "(" + a.lean + " ++ [" + b.lean + "])", kd: a.kd}}
+		el := b.lean
+		if b.kd.k == "ptr" && !b.kd.nn {
+			// the list holds the structs themselves: the appended pointer must be non-nil
+			bn, ok := en.bound[b.path]
+			if !ok {
+				fail(c.Pos(), "append of a pointer that may be nil")
+			}
+			el = bn
+		}
+		return []val{{lean: "(" + a.lean + " ++ [" + el + "])", kd: a.kd}}
 	}
 	// uint128
 	if fn == "uint128.New" && len(c.Args) == 2 {
@@ -803,7 +1088,13 @@ func trCall(c *ast.CallExpr, en env) []val {
 	}
 	// oracle
 	if cur != nil {
-		if o, ok := cur.oracles[fn]; ok {
+		o, ok := cur.oracles[fn]
+		if !ok {
+			if sel, isSel := c.Fun.(*ast.SelectorExpr); isSel {
+				o, ok = cur.oracles["*."+sel.Sel.Name]
+			}
+		}
+		if ok {
 			if o.effect != "" {
 				var args []string
 				for i, a := range c.Args {
@@ -816,6 +1107,11 @@ func trCall(c *ast.CallExpr, en env) []val {
 			}
 			var out []val
 			for _, r := range o.results {
+				if r == "@self" {
+					// the method returns (a view of) its receiver
+					out = append(out, trExpr(c.Fun.(*ast.SelectorExpr).X, en))
+					continue
+				}
 				if i := strings.Index(r, "@"); i >= 0 {
 					// a result that depends on an argument: the oracle parameter is a function
 					ai, _ := strconv.Atoi(r[i+1:])
@@ -923,6 +1219,9 @@ func projPath(j, n int) string {
 }
 
 func retKind(r string) kind {
+	if strings.HasPrefix(r, "ptr:") {
+		return kPtr(strings.TrimPrefix(r, "ptr:"))
+	}
 	switch r {
 	case "bool":
 		return kBool
@@ -1185,10 +1484,26 @@ func trAssign(a *ast.AssignStmt, en env) env {
 			bindResult(&en, lv.Name, vals[i], define, a.Pos())
 		case *ast.SelectorExpr:
 			r := render(lv)
-			if cur == nil || !cur.isState(r) {
-				fail(a.Pos(), "assignment to %s, which is not a declared state field", r)
+			if cur != nil && cur.isState(r) {
+				en.vars[r] = vals[i]
+				break
 			}
-			en.vars[r] = vals[i]
+			if id, ok := lv.X.(*ast.Ident); ok {
+				if x, ok := en.vars[id.Name]; ok && x.kd.k == "ptr" {
+					fieldOf(x.kd.s, lv.Sel.Name, a.Pos())
+					v := vals[i]
+					switch v.kd.k {
+					case "ptr", "status", "mresp", "oneof", "nilptr":
+					default:
+						n := fresh(lv.Sel.Name)
+						pendingLets = append(pendingLets, fmt.Sprintf("let %s := %s", n, v.lean))
+						v = val{lean: n, kd: v.kd, path: v.path}
+					}
+					en.vars[id.Name] = x.withOver(lv.Sel.Name, v)
+					break
+				}
+			}
+			fail(a.Pos(), "assignment to %s, which is neither a declared state field nor a field of a local struct", r)
 		default:
 			fail(a.Pos(), "assignment to %s", render(l))
 		}
@@ -1288,7 +1603,23 @@ func trStmts(list []ast.Stmt, en env, k cont) string {
 	case *ast.BlockStmt:
 		return trBlock(v.List, en, next)
 	case *ast.RangeStmt:
+		if needsGeneralLoop(v.Body.List) {
+			return trLoop(v, en, next)
+		}
 		return trRange(v, en, next)
+	case *ast.IncDecStmt:
+		if v.Tok != token.INC {
+			fail(v.Pos(), "decrement")
+		}
+		as := &ast.AssignStmt{Lhs: []ast.Expr{v.X}, Tok: token.ASSIGN, TokPos: v.Pos(), Rhs: []ast.Expr{&ast.BinaryExpr{X: v.X, Op: token.ADD, OpPos: v.Pos(), Y: &ast.BasicLit{Kind: token.INT, Value: "1", ValuePos: v.Pos()}}}}
+		e1 := trAssign(as, en)
+		lets := takeLets()
+		return wrapLets(lets, next(e1))
+	case *ast.BranchStmt:
+		if v.Tok == token.CONTINUE && len(loopConts) > 0 {
+			return loopConts[len(loopConts)-1](en)
+		}
+		fail(v.Pos(), "%s", v.Tok)
 	case *ast.IfStmt:
 		outer := en.push() // scope of the init statement
 		after := func(e env) string { return next(e.pop()) }
@@ -1495,6 +1826,16 @@ func nodeText(n ast.Node) string {
 }
 
 func trRetVal(e ast.Expr, want string, en env) string {
+	if strings.HasPrefix(want, "ptr:") {
+		if isNilIdent(e) {
+			return "none"
+		}
+		x := trExpr(e, en)
+		if x.kd.k != "ptr" || x.kd.s != strings.TrimPrefix(want, "ptr:") {
+			fail(e.Pos(), "returned value of kind %s, %s expected", x.kd, want)
+		}
+		return x.lean
+	}
 	switch want {
 	case "bool":
 		return trBool(e, en)
@@ -1504,6 +1845,12 @@ func trRetVal(e ast.Expr, want string, en env) string {
 		}
 		if s, ok := trStatus(e, en); ok {
 			return s
+		}
+		if c, ok := e.(*ast.CallExpr); ok {
+			if fn := render(c.Fun); fn == "fmt.Errorf" || fn == "errors.New" {
+				// a plain Go error (no gRPC status)
+				return "(some ⟨GCode.Unknown, Details.none⟩)"
+			}
 		}
 		x := trExpr(e, en)
 		if x.kd.k == "status" {
@@ -1572,6 +1919,41 @@ func trReturn(r *ast.ReturnStmt, en env) string {
 
 // ---------------------------------------------------------------- driver
 
+// constValue: the value of a package-level integer constant declared with iota or a literal
+func constValue(f *ast.File, name string) (string, bool) {
+	for _, d := range f.Decls {
+		gd, ok := d.(*ast.GenDecl)
+		if !ok || gd.Tok != token.CONST {
+			continue
+		}
+		usesIota := false
+		for i, sp := range gd.Specs {
+			vs := sp.(*ast.ValueSpec)
+			if len(vs.Values) == 1 {
+				if id, ok := vs.Values[0].(*ast.Ident); ok && id.Name == "iota" {
+					usesIota = true
+				} else {
+					usesIota = false
+				}
+			}
+			for _, n := range vs.Names {
+				if n.Name == name {
+					if len(vs.Values) == 1 {
+						if bl, ok := vs.Values[0].(*ast.BasicLit); ok {
+							return bl.Value, true
+						}
+					}
+					if usesIota {
+						return strconv.Itoa(i), true
+					}
+					return "", false
+				}
+			}
+		}
+	}
+	return "", false
+}
+
 func findFunc(f *ast.File, name string) *ast.FuncDecl {
 	for _, d := range f.Decls {
 		if fd, ok := d.(*ast.FuncDecl); ok && fd.Name.Name == name {
@@ -1597,10 +1979,17 @@ func translate(sp *fnSpec, files map[string]*ast.File, srcs map[string][]byte) (
 	if fd == nil {
 		return "", fmt.Errorf("%s: function not found in %s", sp.goName, sp.file)
 	}
+	for name, want := range sp.consts {
+		got, ok := constValue(f, name)
+		if !ok || got != want {
+			return "", fmt.Errorf("%s: constant %s is %q in the source, the translator expects %s", sp.goName, name, got, want)
+		}
+	}
 	cur = sp
 	pendingLets = nil
 	oracleEffects = nil
 	counter = 0
+	loopIndex = 0
 	en := env{vars: map[string]val{}, bound: map[string]string{}, isNil: map[string]bool{}}
 	var binders []string
 	// Go parameters, in order, must be the ones the spec lists
@@ -1694,6 +2083,7 @@ func translate(sp *fnSpec, files map[string]*ast.File, srcs map[string][]byte) (
 	if sp.loop {
 		retTypes = []string{"LoopOut"}
 	}
+	curRetTypes = retTypes
 	body := trStmts(stmts, en, func(e env) string {
 		if sp.loop {
 			return "(LoopOut.cont " + atom(e.vars["gotmsg"].lean) + " [" + strings.Join(e.effects, ", ") + "])"
